@@ -85,6 +85,8 @@ static uint64_t obsDigest(const lib::Obs& o)
     h = hashU64(o.ifid, h);
     h = hashU64(o.vendor, h);
     h = hashU64(o.flags, h);
+    h = hashU64(fnv1a(o.rawCmpHeader.data(), o.rawCmpHeader.size()), h);
+    h = hashU64(fnv1a(o.rawMsgHeader.data(), o.rawMsgHeader.size()), h);
     return h;
 }
 
@@ -95,10 +97,25 @@ World::World(const Plan& p)
     rxEnabled = plan.cfgGet("rx", 1) != 0;
     statusEnabled = plan.cfgGet("status", 0) != 0;
     typedViews = plan.cfgGet("typed", 0) != 0 || is("C03") || is("C15") || is("C13") || is("C16");
+    plife = static_cast<uint64_t>(plan.cfgGet("plife", 0));
+    lib::setHostileLocale(is("C15") && plan.cfgGet("locale", 0) != 0);
+    lib::setMovedFromReuse(is("C20"));
+    if (is("C15") && plan.cfgGet("locale", 0))
+        fault("hostile-global-locale");
     if (rxEnabled)
+    {
         dec = std::make_unique<lib::Dec>();
+        dec->setPacketLife(plife);
+    }
     if (statusEnabled)
         stat = std::make_unique<lib::Stat>();
+    if (rxEnabled && is("C01") && plan.cfgGet("relay", 0))
+    {
+        relayEnc = std::make_unique<lib::Enc>();
+        relayEnc->setDev(0x7E1A);
+        relayEnc->setStream(0x7E);
+        relayDec = std::make_unique<lib::Dec>();
+    }
     for (auto& it : plan.items)
     {
         if (it.tag != "node")
@@ -187,6 +204,36 @@ void World::advanceTo(uint64_t t)
         now = t;
 }
 
+// Delivers up to maxFrames of the frames that are due before operation nextOp starts (they would be delivered at its
+// start anyway, in the same order): lets a run be interrupted BETWEEN two deliveries, e.g. in the middle of a reassembly.
+size_t World::deliverDue(size_t maxFrames, size_t nextOp)
+{
+    uint64_t t = static_cast<uint64_t>(-1);
+    size_t idx = 0;
+    for (auto& it : plan.items)
+    {
+        if (it.tag != "op")
+            continue;
+        if (idx++ == nextOp)
+        {
+            t = static_cast<uint64_t>(std::max<int64_t>(0, it.get("t", static_cast<int64_t>(now))));
+            break;
+        }
+    }
+    size_t done = 0;
+    while (done < maxFrames && !queue.empty() && queue.top()->time <= t)
+    {
+        InFlight* f = queue.top();
+        queue.pop();
+        if (f->time > now)
+            now = f->time;
+        deliver(*f);
+        delete f;
+        ++done;
+    }
+    return done;
+}
+
 void World::drain()
 {
     while (!queue.empty())
@@ -202,13 +249,53 @@ void World::drain()
 
 void World::run()
 {
+    runOps(0, static_cast<size_t>(-1));
+    finishRun();
+}
+
+void World::finishRun()
+{
+    curOp = -1;
+    drain();
+    finish();
+    res.simTimeUs = now;
+    res.nontrivial = !res.probes.empty();
+}
+
+// the objects under test are replaced by COPIES of another world's (which is in the same logical state)
+void World::adoptCopiesFrom(World& proto)
+{
+    if (dec && proto.dec)
+    {
+        dec = proto.dec->clone();
+        dec->setPacketLife(plife);
+        decShadowSeen = dec->shadowDiverged();
+    }
+    if (stat && proto.stat)
+        stat = proto.stat->clone();
+    for (auto& kv : nodes)
+    {
+        auto it = proto.nodes.find(kv.first);
+        if (kv.second.enc && it != proto.nodes.end() && it->second.enc)
+            kv.second.enc = it->second.enc->clone();
+    }
+    fault("object-copied-or-moved");
+}
+
+void World::runOps(size_t fromOp, size_t toOp)
+{
     int idx = 0;
     const size_t maxViol = 8;
     for (auto& it : plan.items)
     {
         if (it.tag != "op")
             continue;
+        const size_t me = static_cast<size_t>(idx);
         curOp = idx++;
+        if (me < fromOp)
+            continue;
+        if (me >= toOp)
+            break;
         if (res.viol.size() >= maxViol)
             break;
         uint64_t t = static_cast<uint64_t>(std::max<int64_t>(0, it.get("t", static_cast<int64_t>(now))));
@@ -253,14 +340,13 @@ void World::run()
             case OP_STATUPD:
                 opStatUpd(it);
                 break;
+            case OP_LIFE:
+                opLife(it);
+                break;
             default:
                 break;
         }
     }
-    curOp = -1;
-    drain();
-    finish();
-    res.simTimeUs = now;
 }
 
 // ---------------------------------------------------------------------------------------------- network
@@ -551,9 +637,8 @@ void World::deliver(InFlight& f)
     if (n)
         memcpy(buf, f.bytes.data(), n);
     const bool passNull = (n == 0 && plan.cfgGet("nullbuf", 0));
-    const uint64_t e0 = edgeCount();
     std::vector<lib::PacketRef> out = dec->decode(passNull ? nullptr : buf, n);
-    const uint64_t edges = edgeCount() - e0;
+    const uint64_t edges = dec->lastCallEdges();
     res.apiCalls++;
     if (edges)
     {
@@ -570,6 +655,11 @@ void World::deliver(InFlight& f)
         if (is("C02") && edges > bound)
             violate("time.superlinear", "one decode call of " + std::to_string(n) + " bytes executed " + std::to_string(edges) +
                                             " basic-block edges of library code, linear bound " + std::to_string(bound));
+    }
+    if (dec->shadowDiverged() != decShadowSeen)
+    {
+        decShadowSeen = dec->shadowDiverged();
+        violate("life.fork-diverged", "a copy of the decoder given the same buffer returned other packets than the original");
     }
     const bool written = n && memcmp(buf, f.bytes.data(), n) != 0;
     delete[] buf;
@@ -595,6 +685,11 @@ void World::deliver(InFlight& f)
         ev(obsDigest(o));
         if (currentTap() && !o.payload.empty())
             currentTap()(o.payload.data(), o.payload.size(), "packet-payload");
+        if (currentTap() && !o.rawMsgHeader.empty())
+        {
+            currentTap()(o.rawCmpHeader.data(), o.rawCmpHeader.size(), "raw-cmp-header-image");
+            currentTap()(o.rawMsgHeader.data(), o.rawMsgHeader.size(), "raw-message-header-image");
+        }
     }
 
     model::Expect ex = ref.feed(f.bytes.data(), n);
@@ -679,6 +774,8 @@ void World::deliver(InFlight& f)
             q.pop_front();
         }
     }
+    if (relayEnc)
+        relay(out, obs);
     // ---------------- C04 / C05: strict comparison with the reference decoder
     if ((is("C04") || is("C05")) && ex.cmp && !ex.unknown)
     {
@@ -875,6 +972,8 @@ void World::deliver(InFlight& f)
 
 void World::compareStatus(const char* when)
 {
+    if (!is("C16"))
+        return;  // other properties' runs (C20) only use the tracker as a consumer of packets
     const size_t cnt = stat->devCount();
     if (cnt != refStat.devs.size())
     {
@@ -969,6 +1068,8 @@ void World::finish()
         if (pend.empty())
             probe("quiescent-empty");
     }
+    if (statusEnabled && stat)
+        ev(stat->digestAll());  // what the tracker holds at the end is an output of the run (C20: fill differential)
     if (is("C02") && rxEnabled)
     {
         checkKept(true);
@@ -979,13 +1080,138 @@ void World::finish()
     }
 }
 
+// C01 for packets that came out of a decoder (whole or reassembled): encoded again by another capture module with
+// another frame size and decoded by a second receiver, they are the same packets.
+void World::relay(const std::vector<lib::PacketRef>& out, const std::vector<lib::Obs>& obs)
+{
+    std::vector<lib::PacketRef> batch;
+    std::vector<const lib::Obs*> want;
+    for (size_t i = 0; i < out.size(); ++i)
+        if (!lib::isNull(out[i]) && obs[i].hasPayload && obs[i].valid && obs[i].plen > 0)
+        {
+            batch.push_back(out[i]);
+            want.push_back(&obs[i]);
+        }
+    if (batch.empty())
+        return;
+    ++relayCalls;
+    const uint64_t r = mix64(relayCalls * 0x9E37 + static_cast<uint64_t>(plan.cfgGet("relay", 0)));
+    size_t maxB;
+    switch ((r >> 4) & 3)
+    {
+        case 0:
+            maxB = 25 + (r >> 8) % 40;
+            break;
+        case 1:
+            maxB = 64 + (r >> 8) % 300;
+            break;
+        case 2:
+            maxB = 1500;
+            break;
+        default:
+            maxB = 70000;
+            break;
+    }
+    // tiny frames and large packets: keep the relay's frame count in bounds
+    size_t total = 0;
+    for (auto* o : want)
+        total += o->plen;
+    if (maxB < 64 && total > 20000)
+        maxB = 1500;
+    const size_t minB = ((r >> 20) % 3 == 0) ? std::min<size_t>(maxB, (r >> 24) % 100) : 0;
+    const int mode = static_cast<int>((r >> 40) % 3);
+    std::vector<Bytes> frames = relayEnc->encodeRefs(batch, minB, maxB, mode);
+    res.apiCalls++;
+    probe("relayed-packets", batch.size());
+    std::vector<lib::Obs> got;
+    for (auto& f : frames)
+    {
+        evBytes(f.data(), f.size(), "relay-frame");
+        for (auto& p : relayDec->decode(f.data(), f.size()))
+            if (!lib::isNull(p))
+                got.push_back(lib::observe(p, false));
+    }
+    if (got.size() != want.size())
+    {
+        violate("relay.count", std::to_string(want.size()) + " decoded packets relayed with max " + std::to_string(maxB) + ", the second receiver got " +
+                                   std::to_string(got.size()));
+        return;
+    }
+    for (size_t i = 0; i < got.size(); ++i)
+    {
+        const lib::Obs& w = *want[i];
+        ExpPacket e;
+        e.dev = 0x7E1A;
+        e.stream = 0x7E;
+        e.version = w.version;
+        e.mtype = w.mtype;
+        e.ptype = w.ptype;
+        e.ts = w.ts;
+        e.id32 = wire::idKindOf(w.mtype) == wire::ID_INTERFACE ? w.ifid : w.vendor;
+        e.flags = w.flags;
+        e.payload = w.payload;
+        std::string why;
+        std::string rr = model::comparePacket(e, got[i], &why, false);
+        if (rr.empty() && !got[i].valid)
+        {
+            rr = "marked-invalid";
+            why = "a packet the first receiver returned as valid comes back invalid";
+        }
+        if (!rr.empty())
+            violate("relay." + rr, "relayed packet " + std::to_string(i) + " (max " + std::to_string(maxB) + "): " + why);
+        if (got[i].segType != 0 || w.plen > maxB - 24)
+            probe("relayed-segmented");
+    }
+}
+
 // ---------------------------------------------------------------------------------------------- simple ops
+void World::opLife(const Item& op)
+{
+    // the object is copied / moved / assigned / swapped (adapter.cpp); its logical state - and so every model - is unchanged
+    const int how = static_cast<int>(op.get("how", 1));
+    switch (op.get("obj", 0))
+    {
+        case 0:
+            if (!rxEnabled || !dec)
+                return;
+            dec->lifecycle(how);
+            dec->setPacketLife(plife);
+            decShadowSeen = dec->shadowDiverged();
+            break;
+        case 1:
+        {
+            Node& n = nodeOf(op);
+            if (!n.enc)
+                return;
+            n.enc->lifecycle(how);
+            if (is("C09") && (n.enc->dev() != n.dev || n.enc->stream() != n.stream))
+                violate("api.ids", "getDeviceId()/getStreamId() do not return the configured ids after a copy / move of the encoder");
+            if (is("C09") && n.encodeCalls && n.enc->counter() != n.lastCtr)
+                violate("api.counter", "getSequenceCounter() is " + std::to_string(n.enc->counter()) + " after a copy / move of the encoder, last frame carried " +
+                                           std::to_string(n.lastCtr));
+            break;
+        }
+        default:
+            if (!stat)
+                return;
+            stat->lifecycle(how);
+            if (is("C16"))
+                compareStatus("a copy / move of the tracker");
+            break;
+    }
+    res.apiCalls++;
+    fault("object-copied-or-moved");
+    ev(0x11FE + how);
+}
+
 void World::opRxRestart(const Item&)
 {
     if (!rxEnabled)
         return;
     dec.reset();
     dec = std::make_unique<lib::Dec>();
+    dec->setPacketLife(plife);
+    decShadowSeen = 0;
     ref.reset();
     proj.clear();
     fault("receiver-restart");
@@ -1055,6 +1281,12 @@ void World::opStatUpd(const Item& op)
     const size_t fixedPart = std::max<size_t>(5, std::min(body.size(), wire::fixedSize(static_cast<wire::Kind>(kind))));
     if (op.has("p1o") && body.size() > 4 && kind != wire::K_GENERIC)
         body[4 + static_cast<size_t>(std::max<int64_t>(0, op.get("p1o"))) % (fixedPart - 4)] = static_cast<uint8_t>(op.get("p1v"));
+    // C20 only (no oracle looks at what the tracker makes of it): an object that claims to be an interface status
+    // message but is shorter than that class's header, built with the generic Payload constructor. What the tracker
+    // does with it is unspecified - but it is a function of the object's bytes, not of stale memory.
+    const bool shortGeneric = is("C20") && kind == wire::K_IFSTAT && op.has("cut");
+    if (shortGeneric)
+        body.resize(4 + static_cast<size_t>(op.get("cut")) % 32);
     lib::MsgSpec sp;
     sp.version = 1;
     sp.mtype = mt;
@@ -1063,6 +1295,8 @@ void World::opStatUpd(const Item& op)
     sp.id32 = static_cast<uint32_t>(op.get("ifid", 0));
     sp.flags = static_cast<uint8_t>(op.get("flags", 0)) & static_cast<uint8_t>(~wire::FLAG_ERR_IN_PAYLOAD);
     sp.build = op.get("build", 2) == 1 ? 2 : static_cast<int>(op.get("build", 2));  // 0 generic Payload, 2 typed class (never the parsing constructor)
+    if (shortGeneric)
+        sp.build = 0;
     sp.payload = body.data();
     sp.len = body.size();
     sp.junk = mix64(static_cast<uint64_t>(op.get("id", 1)) * 77 + 1);
@@ -1110,8 +1344,6 @@ RunResult execPlan(const Plan& plan)
 {
     World w(plan);
     w.run();
-    // non-trivial: at least one property-specific probe fired
-    w.res.nontrivial = !w.res.probes.empty();
     return std::move(w.res);
 }
 
